@@ -16,7 +16,7 @@ SUB = {'s': {'x': {'_default': 0, '_emit': True},
              'm': {'_default': 4, '_divider': 'split', '_emit': True}}}
 
 KINDS = ['add', 'delete', 'generate', 'divide', 'divide_copy', 'move_out',
-         'move_in', 'generate_same']
+         'move_in', 'generate_same', 'add_touch']
 
 
 def is_live(obj):
@@ -222,6 +222,15 @@ def make_ops(ctx, kinds, ts_g, d, flavor, fresh_values=None):
                 CTX['issued'].append(('add', 'n%d' % fid[0]))
                 return {'loc1': {'_add': [{'key': 'n%d' % fid[0],
                                            'state': {'s': {'x': 7}}}]}}
+            if label == 'add_touch':
+                # one update with two keys: a structural change under the first
+                # port and an ordinary variable update under the second
+                CTX['issued'].append(('add', 'n%d' % fid[0]))
+                upd = {'loc1': {'_add': [{'key': 'n%d' % fid[0],
+                                          'state': {'s': {'x': 7}}}]}}
+                if l2:
+                    upd['loc2'] = {l2[0]: {'s': {'x': 1}}}
+                return upd
             if label == 'delete':
                 if not l1:
                     return {}
